@@ -82,6 +82,8 @@ var lines = []string{
 	"markdown /public",
 	"browse /noindex",
 	"tryfiles {path} {path}/ /index.html",
+	// a quoted argument continued over a line end inside the quotes, last token of its line
+	"log /public {DIR}/pub.log \"{method} \\\n{uri} {status}\"",
 }
 
 func dirOf(line string) string { return strings.Fields(line)[0] }
